@@ -129,6 +129,10 @@ pub fn call(name: &str, a: &Args, i: &[u8]) -> Option<Out> {
             let h = TlsRecordHeader { record_type: TlsRecordType(a.ct), version: TlsVersion(a.ver), len: len as u16 };
             c!(i, move |i| parse_tls_record_with_header(i, &h), |v: &Vec<TlsMessage>| pj::msgs(v))
         }
+        "two_step" => c!(i, |i| {
+            let (_, r) = parse_tls_raw_record(i)?;
+            parse_tls_record_with_header(r.data, &r.hdr)
+        }, |v: &Vec<TlsMessage>| pj::msgs(v)),
         // ---- messages
         "parse_tls_message_changecipherspec" => c!(i, parse_tls_message_changecipherspec, pj::msg),
         "parse_tls_message_alert" => c!(i, parse_tls_message_alert, pj::msg),
